@@ -111,8 +111,9 @@ class FieldArrayModel(FieldCompositeModel):
                 self.width,
                 self.is_signed,
                 self.is_declared_rand))
-        # An element created during a call takes part in it like its list
-        ret.set_used_rand(self.is_used_rand, 1)
+        # An element created while the size is being solved takes part in
+        # that call; one added between calls waits for the next call
+        ret.set_used_rand(self.size.is_used_rand, 1)
         # Update the size
         self._set_size(len(self.field_l))
         return ret
